@@ -22,9 +22,7 @@
 //! injection is exhausted.
 
 use crate::budget::{BudgetEnforcer, EnforcingPolicy};
-use crate::buffered_input::{
-    ChunkedChars, EofSafeInput, buffered_input_from_reader_with_limit,
-};
+use crate::buffered_input::{ChunkedChars, EofSafeInput, buffered_input_from_reader_with_limit};
 use crate::de::{AliasLimits, Budget, Error, Ev, Events, Location};
 use crate::de_error::budget_error;
 use crate::location::location_from_span;
